@@ -9,6 +9,8 @@ pub fn prop() -> HistProp {
     // timestamp setters are part of the histories: they must not disturb the tree or later calls
     opts.with_time = true;
     opts.wellformed = true;
+    // on overlays a second instance over the same layers must show a well-formed tree as well
+    opts.twin = true;
     HistProp {
         opts,
         cfgs: || crate::gen::with_emb(crate::gen::cfg_deep()),
@@ -17,7 +19,7 @@ pub fn prop() -> HistProp {
         cases_quick: 2500,
         cases_thorough: 200_000,
         nontrivial: |s, _| s.wrong_typed_on_populated >= 1 && s.max_levels >= 2,
-        rule: "histories vec(op,0..=40) in the UNTYPED profile (every call on every universe path incl. the root and wrong-typed targets; selectors resolved against the last observed snapshot, no model prediction) x backend stacks incl. pre-populated overlays; after every step: root is a directory, exists(p) => parent(p) is a directory, every existing universe path is reachable by recursive read_dir, walk_dir(root) = listing walk; non-trivial = >=1 wrong-typed call executed on a non-empty directory or on a file with siblings while >=2 tree levels are populated; distinct by case hash",
+        rule: "histories vec(op,0..=40) in the UNTYPED profile (every call on every universe path incl. the root and wrong-typed targets; selectors resolved against the last observed snapshot, no model prediction) x backend stacks incl. pre-populated overlays; after every step: root is a directory, exists(p) => parent(p) is a directory, every existing universe path is reachable by recursive read_dir, walk_dir(root) = listing walk; on overlays a second OverlayFS instance over the same layers (built before the history) is probed the same way (every existing universe path reachable, nothing listed that does not exist); non-trivial = >=1 wrong-typed call executed on a non-empty directory or on a file with siblings while >=2 tree levels are populated; distinct by case hash",
         floors: vec![("distinct_nontrivial", 30), ("cfg:mem", 5), ("cfg:phys", 5), ("cfg:altroot", 5), ("cfg:overlay", 5), ("wrong_typed_calls", 200)],
         assumptions: vec![
             "removal/overwrite of the root itself may fail or succeed but must leave a root directory (root-targeted calls are generated)",
